@@ -307,7 +307,14 @@ def _pairwise(ops, out):
 # --------------------------------------------------------------------------- numpy reference (relational checks only)
 def variant(G, op):
     G = np.asarray(G)
-    return {"N": G, "T": G.T, "C": G.conj(), "H": G.conj().T}[op]
+    return {"N": G, "T": G.T, "C": G.conj(), "H": G.conj().T, "B": G.conj().T}[op]
+
+
+def eff_op(op):
+    """spec's EffOp: the operator documented for a flag combination ("B" = dagger and transpose: transpose is implied
+    by dagger, so the adjoint)"""
+    return "H" if op == "B" else op
+
 
 
 def embed_apply(G, dims, sites, v):
@@ -383,7 +390,7 @@ def mode_value(s):
 
 
 def op_kwargs(op):
-    return {"N": {}, "T": {"transpose": True}, "H": {"dagger": True}}[op]
+    return {"N": {}, "T": {"transpose": True}, "H": {"dagger": True}, "B": {"dagger": True, "transpose": True}}[op]
 
 
 def gate_input(G, gd, given):
@@ -612,8 +619,9 @@ def apply_entry(tn, geom, a, gauges=None):
 
 # which (op) values an entry point supports natively
 ENTRY_OPS = {
-    "gate": "NTH", "gate_upper": "NTH", "gate_lower": "NTH", "gate_sandwich": "NTH", "gate_inds": "NTH",
-    "gate_inds_with_tn": "NTH", "Tensor.gate": "NTH", "gate_split": "NTH", "gate_with_auto_swap": "N",
+    # "B" = dagger=True and transpose=True together (every entry point that takes both flags)
+    "gate": "NTHB", "gate_upper": "NTHB", "gate_lower": "NTHB", "gate_sandwich": "NTHB", "gate_inds": "NTHB",
+    "gate_inds_with_tn": "NTH", "Tensor.gate": "NTH", "gate_split": "NTHB", "gate_with_auto_swap": "N",
     "gate_sandwich_with_auto_swap": "NH", "gate_nonlocal": "NT", "gate_with_submpo": "NT", "gate_with_mpo": "NT",
-    "op_lazy": "NT", "gate_simple": "NTH", "swap_sites": "N",
+    "op_lazy": "NT", "gate_simple": "NTHB", "swap_sites": "N",
 }
